@@ -4,7 +4,7 @@
    every hash function, every scriptSig and every witness: acceptance by the model of
    Tx.verify_input implies the authorisation predicate of the spent output type. *)
 From V Require Import Base.Prelude Base.Ints Model.Helper Model.Script Model.Op Model.Interp
-  Model.Pecc Model.Taproot Model.Verify Proofs.MultisigP Proofs.VerifyP Proofs.TapMultisigP.
+  Model.Pecc Model.Taproot Model.Verify Proofs.MultisigP Proofs.VerifyP Proofs.TapMultisigP Proofs.VerifyCompleteP.
 
 (* OP_CHECKMULTISIG's matching loop accepts exactly when the signatures embed, in order, into
    the keys with every pair verifying: m signatures need m distinct keys *)
@@ -132,6 +132,19 @@ Theorem C06_p2tr_keypath_complete :
   verify_input C ripemd160 sha1 sha256 hash160 hash256 so c [sg] [] (p2tr_script x) = OTrue.
 Proof. exact p2tr_keypath_complete. Qed.
 Print Assumptions C06_p2tr_keypath_complete.
+
+(* the canonical P2SH m-of-n spend  OP_0 <sig_1> .. <sig_m> <redeem script>  is accepted whenever
+   OP_CHECKMULTISIG's verdict on the popped keys and signatures is positive *)
+Theorem C06_p2sh_multisig_complete :
+  forall C ripemd160 sha1 sha256 hash160 hash256 so c w m keys sigs b,
+  1 <= m <= 16 -> 1 <= zlen keys <= 16 -> zlen sigs = m -> nonempty_sigs sigs = true ->
+  length (hash160 b) = 20%nat ->
+  parse_cmds b = Ok (multisig_script m keys) ->
+  so_multisig so (rev keys) (rev sigs) = Ok true ->
+  verify_input C ripemd160 sha1 sha256 hash160 hash256 so c w
+    (Op 0 :: map Push sigs ++ [Push b]) (p2sh_script (hash160 b)) = OTrue.
+Proof. exact p2sh_multisig_complete. Qed.
+Print Assumptions C06_p2sh_multisig_complete.
 
 (* k-of-n tapscript <x1> CHECKSIG <x2> CHECKSIGADD ... OP_k OP_EQUAL (MultiSigTapScript, n >= 2):
    accepted only if every (key, signature) pair could be evaluated and exactly k of them verify *)
